@@ -372,16 +372,35 @@ class Session(object):
         info = self.cinfo.get(c)
         if p is None or info is None:
             return
-        info["app"] = p._app._app_id if p._app is not None else None
-        info["side"] = p._side
-        info["did_allocate"] = p._did_allocate
-        info["did_claim"] = p._did_claim
-        info["claimed_name"] = p._nameplate_id
-        info["did_release"] = p._did_release
-        info["mailbox"] = p._mailbox._mailbox_id if p._mailbox is not None else None
-        info["mailbox_id"] = p._mailbox_id
-        info["opened"] = p._mailbox is not None
-        info["did_close"] = p._did_close
+        # (from the command and its answer only -- FlagBridge.v is the statement that the server's own per-connection
+        # flags are this function of the commands sent; the private attributes themselves may be renamed by a refactoring)
+        if o.get("exc") or not isinstance(msg, dict):
+            return
+        fs = [e for e in o["log"] if e[0] == "F" and e[1] == c]
+        err = next((e[4] for e in fs if e[3] == "error"), None)
+        kinds = [e[3] for e in fs]
+        t = msg.get("type")
+        sstr = lambda k: isinstance(msg.get(k), str)
+        if t == "bind" and err is None and info.get("app") is None and sstr("appid") and sstr("side"):
+            info["app"], info["side"] = msg["appid"], msg["side"]
+        if info.get("app") is None:
+            return
+        if t == "allocate" and "allocated" in kinds:
+            info["did_allocate"] = True
+        elif t == "claim" and sstr("nameplate") and err != "other" and not info.get("did_claim"):
+            info["did_claim"] = True
+            info["claimed_name"] = msg["nameplate"]
+        elif t == "release" and "released" in kinds:
+            info["did_release"] = True
+        elif t == "open" and sstr("mailbox") and err != "other" and not info.get("opened"):
+            info["mailbox_id"] = msg["mailbox"]
+            if err is None:
+                info["mailbox"] = msg["mailbox"]
+                info["opened"] = True
+        elif t == "close" and "closed" in kinds:
+            info["did_close"] = True
+            info["mailbox"] = None
+            info["opened"] = False
 
     def kf_triggers(self, c, msg):
         """Python twin of coq/theories/Findings.v (cross-checked against the model's `kf` output)"""
